@@ -134,6 +134,10 @@ class Run:
                 'witness': _short(witness, 6000),
             })
 
+    def is_known(self, key: Optional[str]) -> bool:
+        ent = self._known.get(key) if key else None
+        return ent is not None and ent.get('status') == 'known'
+
     def guard(self, fn: Callable[[], Any], what: str, engine: str = '', case: Any = None,
               key: Optional[str] = None, allowed: tuple = ()) -> Any:
         """Run fn; an unexpected exception is a violation (with traceback as witness)."""
